@@ -224,6 +224,11 @@ func (a *pwaligner) fillMatrix_SW() (err error) {
 		} else {
 			a.maxa[j] = a.matrix[0][j] + a.gapopen
 		}
+		if a.matrix[0][j] > a.maxscore {
+			a.maxscore = a.matrix[0][j]
+			a.maxi = 0
+			a.maxj = j
+		}
 	}
 
 	// First column
@@ -250,6 +255,11 @@ func (a *pwaligner) fillMatrix_SW() (err error) {
 		} else {
 			a.matrix[i][0] = 0.0
 			a.trace[i][0] = ALIGN_DIAG // TO REVIEW
+		}
+		if a.matrix[i][0] > a.maxscore {
+			a.maxscore = a.matrix[i][0]
+			a.maxi = i
+			a.maxj = 0
 		}
 	}
 
@@ -431,7 +441,7 @@ func (a *pwaligner) backTrack_SW() {
 				j--
 			}
 		}
-		if i > 0 && j > 0 && a.matrix[i][j] <= .0 && a.algo != ALIGN_ALGO_ATG {
+		if i >= 0 && j >= 0 && a.matrix[i][j] <= .0 && a.algo != ALIGN_ALGO_ATG {
 			break
 		}
 	}
